@@ -357,6 +357,12 @@ def run_check(pid, tier, seed, only, jobs, write_evidence=True):
             print("HARNESS-ERROR: evidence does not validate: %s" % str(e)[:300])
             if exit_code == 0:
                 exit_code = 3
+    if os.environ.get("VERIF_VERBOSE"):
+        for n in names:
+            g = agg[n]
+            print("  %-28s paths=%-7d asserting=%-7d queries=%-8d tasks=%-4d cpu=%.1fs exhausted=%s inconc=%d" %
+                  (n, g["stats"].paths, g["stats"].paths_asserting, g["stats"].queries, g["tasks"], g["wall_s"],
+                   g["exhausted"], g["n_inc"]))
     print("%s %s: %d obligations, %d paths (%d asserting), %d solver queries (%d unsat / %d sat / %d unknown), "
           "%d nf-identities, %.1fs solver, %.1fs wall, exit %d" %
           (pid, tier, len(names), tot.paths, tot.paths_asserting, tot.queries, tot.unsat, tot.sat, tot.unknown,
